@@ -60,6 +60,20 @@ def roundtrip_contract(cls, slots, use_hook, name):
         out = [("__getstate__ captures exactly the slots", z3.BoolVal(d is not None and sorted(d) == sorted(slots)))]
         f = st.heap[info["dst"].oid].fields
         for s_ in slots:
+            if s_ == "parameters_state" and cls == "_InstancePrivate":
+                # the dispatch state (open batch, trigger in progress, queued events and watchers) belongs
+                # to the operation in progress on the original: the copy starts idle
+                v = f.get(s_)
+                idle = False
+                if isinstance(v, Ref) and st.heap[v.oid].kind == "dict":
+                    kd = I.known_dict(st, v)
+                    if kd is not None and sorted(kd) == ["BATCH_WATCH", "TRIGGER", "events", "watchers"]:
+                        ev_, ws_ = kd["events"], kd["watchers"]
+                        idle = (isinstance(kd["BATCH_WATCH"], Conc) and kd["BATCH_WATCH"].py is False
+                                and isinstance(kd["TRIGGER"], Conc) and kd["TRIGGER"].py is False
+                                and I.known_items(st, ev_) == [] and I.known_items(st, ws_) == [])
+                out.append(("the copy starts with an idle dispatch state (no open batch, no trigger, nothing queued)", z3.BoolVal(bool(idle))))
+                continue
             out.append(("slot %s restored on the copy" % s_,
                         I.term(f[s_]) == info["T"][s_] if s_ in f else z3.BoolVal(False)))
         out.append(("the original is not modified", S.heap_unchanged(I, st, info["src"])))
